@@ -167,6 +167,9 @@ func within(d time.Duration, f func()) bool {
 // (the failed stack is offered again) and writers held back by the limits must get through.
 func retryScenario(emit func(sx), id int, cs uint64) {
 	cfg := Config{LL: "map", MMPn: 8, MMPd: 10, MaxPre: 1, MaxDirtyOps: 1, MaxDirtyBytes: 1}
+	// every other time with CachePersisted: the persister's publish step then takes its other branch,
+	// and the merger that waits on the dirty limits must be woken by it all the same
+	cfg.CachePersisted = (cs/1000003)%2 == 1 // the shard's seed: consecutive shards alternate
 	h := newH(cfg, "")
 	emit(L("case", id, int64(cs), cfg.sx(), L("universe", L())))
 	if err := h.open(); err != nil {
@@ -189,6 +192,45 @@ func retryScenario(emit func(sx), id int, cs uint64) {
 		emit(L("stall", fmt.Sprintf("%q", "after one failed LowerLevelUpdate the writers or the persister never got through")))
 		emit(L("end"))
 		return
+	}
+	if !within(40*time.Second, func() { h.closeAll() }) {
+		emit(L("stall", "close-hung"))
+	}
+	emit(L("end"))
+}
+
+// mergeErrorScenario: a merger cycle that ends in a merge error (the merge operator refuses) must
+// still answer the synchronous notifications it collected, and the collection stays usable.
+func mergeErrorScenario(emit func(sx), id int, cs uint64) {
+	cfg := Config{LL: "none", MMPn: 8, MMPd: 10, MaxPre: 4}
+	h := newH(cfg, "")
+	emit(L("case", id, int64(cs), cfg.sx(), L("universe", L())))
+	if err := h.open(); err != nil {
+		emit(L("error", fmt.Sprintf("%q", err.Error())))
+		emit(L("end"))
+		return
+	}
+	atomic.StoreInt32(&h.gating, 0)
+	h.releaseAll()
+	nm := h.coll.(interface {
+		NotifyMerger(string, bool) error
+	})
+	h.execBatch(&tbatch{ops: []bop{{'s', []byte("a"), []byte("1")}, {'s', []byte("z"), []byte("1")}}})
+	h.execBatch(&tbatch{ops: []bop{{'m', []byte("a"), []byte("?")}, {'s', []byte("y"), []byte("1")}}})
+	ok := within(20*time.Second, func() {
+		for atomic.LoadInt32(&h.onErrors) == 0 {
+			time.Sleep(200 * time.Microsecond)
+		}
+		for j := 0; j < 3; j++ { // each wakes the merger into another failing cycle
+			nm.NotifyMerger("after-merge-error", true)
+		}
+		h.execBatch(&tbatch{ops: []bop{{'s', []byte("x"), []byte("1")}}})
+		h.coll.Get([]byte("x"), moss.ReadOptions{})
+	})
+	if ok {
+		emit(L("stall", "ok"))
+	} else {
+		emit(L("stall", fmt.Sprintf("%q", "a synchronous NotifyMerger (or a writer) never returned after a merger cycle that ended in a merge error")))
 	}
 	if !within(40*time.Second, func() { h.closeAll() }) {
 		emit(L("stall", "close-hung"))
@@ -314,6 +356,11 @@ func famSync(w *bufio.Writer, seed uint64, n int) error {
 		case 6:
 			sortingWriterScenario(emit, i, cs, r)
 			continue
+		case 5:
+			if seed%2 == 0 {
+				mergeErrorScenario(emit, i, cs)
+				continue
+			}
 		}
 		capN := 1 + r.intn(3)
 		cfg := Config{LL: "none", MMPn: 8, MMPd: 10, MaxPre: capN}
